@@ -52,7 +52,19 @@ def off2(n):
     return -700.0 + 0.02 * id2(n)
 
 
-REC = {"off": off, "off2": off2, "id1": id1, "id2": id2, "id3": id3, "id4": id4, "pow": powrec, "chirp": chirp}
+def low1(n):
+    """Strong content in the lowest bins of the record (1.3 cycles over the record) plus identifiable structure."""
+    k = np.arange(n, dtype=np.float64)
+    return np.sin(2 * np.pi * 1.3 * k / n) + 0.05 * id1(n)
+
+
+def low2(n):
+    """Partner of low1: same tone with another amplitude and a phase lag of 1.1 rad."""
+    k = np.arange(n, dtype=np.float64)
+    return 0.7 * np.sin(2 * np.pi * 1.3 * k / n - 1.1) + 0.05 * id3(n)
+
+
+REC = {"low1": low1, "low2": low2, "off": off, "off2": off2, "id1": id1, "id2": id2, "id3": id3, "id4": id4, "pow": powrec, "chirp": chirp}
 
 
 def get(name, n, seed=0):
